@@ -39,6 +39,9 @@ var c10Files = map[string]string{
 	"fail.vuego":         `<p>{{ a | nosuchfunction }}</p>`,
 	"failinc.vuego":      `<b>x</b><template include="missing.vuego"></template>`,
 	"fmset.vuego":        "---\ncount: 1\nlabel: L\n---\n<template :count=\"count + 1\" :label=\"a\"></template><p>visit {{ count }} {{ label }}</p>",
+	"nest.vuego":         `<template include="card.vuego" :t="a"></template><template include="card.vuego" :t="b"></template><i v-for="x in items"><template include="card.vuego" :t="x"></template></i>`,
+	"card.vuego":         `<div class="card"><template include="badge.vuego" :label="t" title="{{ t }}"></template><template v-html="t"></template></div>`,
+	"badge.vuego":        `<b :data-t="title">{{ label }}</b>`,
 	"failmid.vuego":      `<p title="tok={{ a }} exp={{ b | nosuchfunction }}">x</p>`,
 	"failtext.vuego":     `<p>tok={{ a }} and {{ b | nosuchfunction }} tail</p>`,
 	"failreq.vuego":      `<template include="req.vuego"></template>`,
@@ -67,7 +70,7 @@ func c10Data(variant int) func() map[string]any {
 
 func c10Progs() []c10Prog {
 	var out []c10Prog
-	for _, f := range []string{"attrs", "style", "loop", "chain", "inc", "once", "filters", "fm", "layouted", "fmset", "fail", "failinc", "failmid", "failtext", "failreq", "tpl", "vhtml", "map"} {
+	for _, f := range []string{"attrs", "style", "loop", "chain", "inc", "once", "filters", "fm", "layouted", "fmset", "nest", "fail", "failinc", "failmid", "failtext", "failreq", "tpl", "vhtml", "map"} {
 		for v := 0; v < 4; v++ {
 			out = append(out, c10Prog{fmt.Sprintf("%s/%d", f, v), f + ".vuego", c10Data(v)})
 		}
@@ -105,7 +108,7 @@ func c10Render(t vuego.Template, p c10Prog, viaVue bool) (string, bool, map[stri
 
 func runC10(r *Run, replay *Case) {
 	progs := c10Progs()
-	r.Res.Rule = "catalogue of 72 programs (18 templates: bound attributes, styles, loops, chains, includes+slots, v-once, filters, front-matter, layouts, failing templates x 4 data variants incl. no data at all); " +
+	r.Res.Rule = "catalogue of 76 programs (19 templates: bound attributes, styles, loops, chains, includes+slots, v-once, filters, front-matter, layouts, failing templates x 4 data variants incl. no data at all); " +
 		"every ordered pair on one long-used engine vs a fresh engine, each program repeated 20x (map order), random sequences; caller data and cached DOM snapshotted; non-trivial = every comparison"
 	reps := 20
 	mfs := c10FS()
